@@ -79,21 +79,30 @@ static Level fam_unusual() {
 // C16: every call shape over <=3 definitions named from {f,g}; each definition returns a distinct constant; bodies call any
 // subset of {f,g,h}; one file or split over an included file
 static Level fam_callshapes(int ndefs_max) {
-  return {"call-shapes<=" + std::to_string(ndefs_max), [=](const CB &cb) {
+  return {"call-shapes<=" + std::to_string(ndefs_max) + "(0/1 parameters)", [=](const CB &cb) {
             std::vector<std::string> names = {"f", "g"}, callees = {"f", "g", "h"};
             for (int nd = 1; nd <= ndefs_max; nd++) {
-              int combos = 1; for (int i = 0; i < nd; i++) combos *= 2 * 8;  // name x subset of callees
+              int per = 2 * 8 * 2, combos = 1; for (int i = 0; i < nd; i++) combos *= per;  // name x subset of callees x arity
               for (int code = 0; code < combos; code++) {
-                int c = code; std::vector<std::string> defs;
+                int c = code; std::vector<std::string> defs; std::map<std::string, int> arity;
+                // arities are per name and fixed by the first definition of that name in this shape, so that every call
+                // passes the right number of arguments and acceptance depends on definition order only
+                std::vector<int> nm(nd), sub(nd), ar(nd);
+                for (int i = 0; i < nd; i++) { nm[i] = c % 2; c /= 2; sub[i] = c % 8; c /= 8; ar[i] = c % 2; c /= 2; }
+                bool canonical = true;
+                for (int i = 0; i < nd; i++) { std::string n = names[nm[i]]; if (arity.count(n)) { if (ar[i] != arity[n]) canonical = false; } else arity[n] = ar[i]; }
+                if (!canonical) continue;
+                if (!arity.count("f")) arity["f"] = 0; if (!arity.count("g")) arity["g"] = 0; arity["h"] = 0;
+                auto call = [&](const std::string &callee, const std::string &arg) { return "RUN " + callee + " WITH " + (arity[callee] ? arg + " " : std::string()) + "END"; };
                 for (int i = 0; i < nd; i++) {
-                  std::string nm = names[c % 2]; c /= 2; int sub = c % 8; c /= 8;
-                  std::string d = "PROGRAM " + nm + " DO\n  x0 := " + std::to_string(10 * (i + 1)) + ";\n";
-                  for (int k = 0; k < 3; k++) if (sub & (1 << k)) d += "  y" + std::to_string(k) + " := RUN " + callees[k] + " WITH END;\n  x0 := x0 + 1;\n";
+                  std::string n = names[nm[i]];
+                  std::string d = "PROGRAM " + n + (ar[i] ? " IN p" : "") + " DO\n  x0 := " + std::to_string(10 * (i + 1)) + ";\n";
+                  for (int k = 0; k < 3; k++) if (sub[i] & (1 << k)) d += "  y" + std::to_string(k) + " := " + call(callees[k], ar[i] ? "p" : "3") + ";\n  x0 := x0 + 1;\n";
                   d += "  x0 := x0 + 0\nEND\n"; defs.push_back(d);
                 }
                 for (std::string mainc : {"f", "g"}) {
                   std::string all; for (auto &d : defs) all += d;
-                  std::string m = "x1 := RUN " + mainc + " WITH END\n";
+                  std::string m = "x1 := " + call(mainc, "5") + "\n";
                   cb(single(all + m));
                   if (nd >= 2) { Case cs; cs.main = "main"; cs.files["lib"] = defs[0]; std::string rest; for (int i = 1; i < nd; i++) rest += defs[i]; cs.files["main"] = "INCLUDE \"lib\"\n" + rest + m; cb(cs); }
                 }
@@ -108,6 +117,16 @@ static Level fam_loopbound() {
                 std::string body = "  " + b1 + ";\n  " + b2 + "\n";
                 if (nest) body = "  LOOP x0 DO\n    " + b1 + ";\n    " + b2 + "\n  END;\n  x3 := x3 + 1\n";
                 cb(single("x0 := " + init + ";\nLOOP x0 DO\n" + body + "END;\nx4 := x0\n"));
+              } }};
+}
+
+// C16: LOOP programs written through macros whose temporaries are loop bounds and are assigned inside the body
+static Level fam_macroloops() {
+  return {"macro-loops", [=](const CB &cb) {
+            std::string lib = "DEFINE REPEAT <V> TIMES <P> DONE AS\n  #0 := $0;\n  LOOP #0 DO\n    $1;\n    #0 := #0 + 1\n  END\nENDDEF\nDEFINE COUNTDOWN <ID> <P> DONE AS\n  LOOP $0 DO\n    $1;\n    $0 := $0 - 1\n  END\nENDDEF\nDEFINE TWICE <P> DONE AS\n  #1 := 2;\n  LOOP #1 DO\n    #1 := 0;\n    $0\n  END\nENDDEF\n";
+            for (std::string n : {"0", "1", "3"}) for (std::string body : {"x1 := x1 + 1", "x1 := x1 + 1;\nx0 := 0", "REPEAT 2 TIMES x2 := x2 + 1 DONE", "TWICE x2 := x2 + 3 DONE"})
+              for (std::string use : {"REPEAT " + n + " TIMES\n" + body + "\nDONE", "x0 := " + n + ";\nCOUNTDOWN x0\n" + body + "\nDONE", "TWICE\n" + body + "\nDONE", "x0 := " + n + ";\nREPEAT x0 TIMES\n" + body + "\nDONE"}) {
+                Case c; c.main = "main"; c.files["lib"] = lib; c.files["main"] = "INCLUDE \"lib\"\n" + use + ";\nx3 := x1\n"; cb(c);
               } }};
 }
 
@@ -150,14 +169,14 @@ int main(int argc, char **argv) {
   drv::Args args = drv::Args::parse(argc, argv);
   bool T = args.thorough(); const std::string &P = args.prop;
   std::vector<Level> L; std::function<void(orc::An &, vf::Stats &)> o;
-  std::vector<int> shapesQ = {0, 1, 2, 4, 6, 7, 11, 15}, shapesAll = all_shapes();
+  std::vector<int> shapesQ = {0, 1, 2, 4, 6, 7, 11, 15}, shapesAll = all_shapes(), shapesR = {1, 4, 8, 11, 12};
   if (P == "C01") {
     o = orc::oracle_C01;
-    L = {fam_FA(3, 2, true), fam_FB(3, 2), fam_FC(2, shapesQ, 1, false, false, 0, "(<=2 defs of 8 shapes, main 1 node)"), fam_FC(1, shapesAll, 2, true, false, 2, "(1 def of 16 shapes, main<=2 nodes, rich args, both file layouts)"), fam_FC(2, shapesQ, 1, true, false, 0, "(<=2 defs of 8 shapes, main 1 node, rich args incl. nested calls)"), fam_FD(5, 1, 6), fam_FA(4, 2, true)};
+    L = {fam_FA(3, 2, true), fam_FB(3, 2), fam_FC(2, shapesQ, 1, false, false, 0, "(<=2 defs of 8 shapes, main 1 node)"), fam_FC(1, shapesAll, 2, true, false, 2, "(1 def of 16 shapes, main<=2 nodes, rich args, both file layouts)"), fam_FC(2, shapesQ, 1, true, false, 0, "(<=2 defs of 8 shapes, main 1 node, rich args incl. nested calls)"), fam_FD(5, 1, 6), fam_FA(3, 2, true, true), fam_FC(3, shapesR, 1, false, false, 0, "(<=3 defs of 5 shapes incl. redefinition with another layout, main 1 node)"), fam_FA(4, 2, true)};
     if (T) { L.push_back(fam_FB(4, 2)); L.push_back(fam_FC(2, shapesAll, 2, false, false, 0, "(<=2 defs of 16 shapes, main<=2 nodes)")); L.push_back(fam_FD(8, 2, 8)); L.push_back(fam_FC(3, shapesQ, 1, false, false, 0, "(<=3 defs of 8 shapes, main 1 node)")); L.push_back(fam_FA(5, 2, false)); L.push_back(fam_FA(4, 2, true, true)); }
   } else if (P == "C03") {
     o = orc::oracle_C03;
-    L = {fam_unusual(), fam_FA(3, 2, true), fam_FB(3, 2), fam_FC(2, shapesQ, 1, false, false, 0, "(<=2 defs of 8 shapes, main 1 node)"), fam_FC(1, shapesAll, 2, true, false, 2, "(1 def of 16 shapes, main<=2 nodes, rich args, both file layouts)"), fam_FC(2, shapesQ, 1, true, false, 0, "(<=2 defs of 8 shapes, main 1 node, rich args incl. nested calls)"), fam_FD(5, 1, 6)};
+    L = {fam_unusual(), fam_FA(3, 2, true), fam_FB(3, 2), fam_FC(2, shapesQ, 1, false, false, 0, "(<=2 defs of 8 shapes, main 1 node)"), fam_FC(1, shapesAll, 2, true, false, 2, "(1 def of 16 shapes, main<=2 nodes, rich args, both file layouts)"), fam_FC(2, shapesQ, 1, true, false, 0, "(<=2 defs of 8 shapes, main 1 node, rich args incl. nested calls)"), fam_FC(3, shapesR, 1, false, false, 0, "(<=3 defs of 5 shapes incl. redefinition with another layout, main 1 node)"), fam_FD(5, 1, 6)};
     if (T) { L.push_back(fam_FA(4, 2, true)); L.push_back(fam_FB(4, 2)); L.push_back(fam_FC(2, shapesAll, 2, false, false, 0, "(<=2 defs of 16 shapes, main<=2 nodes)")); L.push_back(fam_FC(3, shapesQ, 1, false, false, 0, "(<=3 defs of 8 shapes, main 1 node)")); L.push_back(fam_FD(8, 2, 8)); }
   } else if (P == "C07") {
     o = [](orc::An &a, vf::Stats &st) { orc::oracle_C07(a, st); };
@@ -169,7 +188,7 @@ int main(int argc, char **argv) {
     if (T) { L.push_back(fam_FD(8, 2, 10)); L.push_back(fam_FA(4, 2, true)); L.push_back(fam_FB(4, 2)); L.push_back(fam_FC(2, shapesAll, 2, false, false, 2, "(<=2 defs of 16 shapes, main<=2 nodes, both file layouts)")); }
   } else if (P == "C16") {
     o = orc::oracle_C16;
-    L = {fam_callshapes(2), fam_loopbound(), fam_FA(3, 2, true), fam_FC(2, shapesQ, 1, false, false, 2, "(<=2 defs of 8 shapes, main 1 node, both file layouts)"), fam_callshapes(3)};
+    L = {fam_callshapes(2), fam_loopbound(), fam_macroloops(), fam_FA(3, 2, true), fam_FC(2, shapesQ, 1, false, false, 2, "(<=2 defs of 8 shapes, main 1 node, both file layouts)"), fam_callshapes(3)};
     if (T) { L.push_back(fam_FA(4, 2, true)); L.push_back(fam_FC(3, shapesQ, 1, false, false, 0, "(<=3 defs of 8 shapes, main 1 node)")); L.push_back(fam_FC(2, shapesAll, 2, false, false, 2, "(<=2 defs of 16 shapes, main<=2 nodes, both file layouts)")); }
   } else if (P == "C19") {
     o = orc::oracle_C19;
